@@ -87,9 +87,8 @@ func H_C04a_index() {
 		t.RotateInternalNodes()
 	case 5:
 		t.Resolve()
-		// Resolve documents that the bitsets are NOT updated
-		sxAssert(t.ClearBitSets() == nil, "ClearBitSets after Resolve")
-		sxAssert(t.UpdateBitSet() == nil, "UpdateBitSet after Resolve")
+		// Resolve documents that the indexes must be recomputed by the caller
+		sxAssert(t.ReinitIndexes() == nil, "ReinitIndexes after Resolve")
 	case 6:
 		full := uint64(1)<<uint(n) - 1
 		sub := uint64(sxChoose("outgroup", 1<<uint(n)))
@@ -111,6 +110,24 @@ func H_C04a_index() {
 	sxAssert(wellFormed(t) == "", "well-formed after the edit")
 	sxAssert(indexAgrees(t) == "", "index describes the tree after the edit")
 	sxAssert(rankAgrees(t) == "", "tip indexes are ranks after the edit")
+	// the refreshed index must compare equal, split by split, with the index of
+	// an independently built tree of the same shape (read back from the text)
+	if t.Root().Nneigh() >= 2 {
+		t2, err := parseNewick(t.Newick())
+		sxAssert(err == nil && t2.ReinitIndexes() == nil, "the edited tree reads back and indexes")
+		if err == nil {
+			es2 := t2.Edges()
+			for _, e := range t.Edges() {
+				found := false
+				for _, e2 := range es2 {
+					if e.SameBipartition(e2) && e2.SameBipartition(e) {
+						found = true
+					}
+				}
+				sxAssert(found, "every split of the edited tree equals a split of an identical independently built tree")
+			}
+		}
+	}
 	sxReach("edited")
 }
 
